@@ -172,6 +172,19 @@ def vmware(camp, rng, batch, n):
                                          "what": "VMWareClient: a chunk that begins with the 1x1 top-left update but carries more data is not "
                                                  f"the documented workaround case, yet it was not processed normally: {first_diff(r['events'], base2['events'])}"})
             return
+        # (b'') the same update arriving in pieces (each piece its own chunk) is no workaround chunk either
+        base3 = run_real(cfg1, [data + msg + b"\x02"])
+        for k in ([16, 4, 1, 19, 2, 12] if i % 3 == 0 else [16, rng.randrange(1, 20)]):
+            chunks = [data, msg[:k], msg[k:], b"\x02"]
+            r = run_real(cfg3, chunks)
+            camp.evaluations += 1
+            camp.count("vmware-update-in-pieces")
+            camp.nontrivial.add(("vm-pieces", i, k))
+            if observable(r) != observable(base3):
+                camp.oracle_failures.append({"kind": "oracle", "property": "C01", "case": case_payload(cfg3, chunks),
+                                             "what": f"VMWareClient: the 1x1 top-left update delivered as {k} + {20 - k} bytes (no chunk is that update) "
+                                                     f"was not processed normally: {first_diff(r['events'], base3['events'])}"})
+                return
         # (c) KNOWN FINDING: the same 20 bytes in the middle of a raw rectangle
         if not known_hit:
             inner = SPU[:16] + b"\x01\x02\x03\x04"
